@@ -48,6 +48,8 @@ func checks() map[string]*checkDef {
 	scanStub := []string{"scanned file system: SimFS (in-memory, seeded listing order, chunking, faults)", "extractors/detectors/standalone extractors: harness plugins with scenario-defined predicates and outputs", "stats.Collector: recording collector"}
 	add(&checkDef{ID: "C01", World: "scan", Level: "exploration", Quick: budget{8, 6000, 100}, Thorough: budget{16, 2000000, 1500}, Real: scanReal, Stub: scanStub,
 		Assume: []string{"gitignore dialect restricted to literal names, *.ext, name/, /anchored, dir/name (no negation, no **)", "requested paths that are themselves excluded by a skip rule, or are symlinks, are not generated (statement does not fix the outcome)", "IgnoreSubDirs only together with requested paths; no nested requested pairs under the cut-off", "dispatch of dangling/directory symlinks: attempt expected, outcome not asserted"}})
+	add(&checkDef{ID: "C09", World: "scan", Level: "fault_enumeration", Quick: budget{8, 60, 120}, Thorough: budget{16, 100000, 1500}, Real: scanReal, Stub: scanStub,
+		Assume: []string{"inside a failing directory or (file, extractor) attempt an extraction may be present or absent", "a fault on a .gitignore makes the ignore rules of its directory unknown: extra extractions inside that directory are accepted", "extractors that considered a file whose lazy path-stat was faulted: status not asserted", "with fatal-on-fs-errors set and only file-level faults delivered, either overall outcome is accepted"}})
 	return m
 }
 
@@ -215,7 +217,7 @@ func main() {
 	runDir := filepath.Join(verifDir, ".build", "run", fmt.Sprintf("%s-%d", c.ID, os.Getpid()))
 	os.MkdirAll(runDir, 0o755)
 	defer os.RemoveAll(runDir)
-	replayDir := filepath.Join(verifDir, "replays")
+	replayDir := env("VERIF_REPLAYS", filepath.Join(verifDir, "replays"))
 	os.MkdirAll(replayDir, 0o755)
 
 	results := make([]*sim.WorkerResult, b.Workers)
@@ -376,8 +378,9 @@ func main() {
 	if replay == "" {
 		ev := evidence{PropertyID: c.ID, Tier: tier, Seed: seed, Level: c.Level, Coverage: cov, Assumptions: c.Assume, WallS: wall, Violations: len(seenClass)}
 		eb, _ := json.MarshalIndent(ev, "", " ")
-		os.MkdirAll(filepath.Join(verifDir, "evidence"), 0o755)
-		if err := os.WriteFile(filepath.Join(verifDir, "evidence", c.ID+".json"), eb, 0o644); err != nil {
+		evDir := env("VERIF_EVIDENCE_DIR", filepath.Join(verifDir, "evidence"))
+		os.MkdirAll(evDir, 0o755)
+		if err := os.WriteFile(filepath.Join(evDir, c.ID+".json"), eb, 0o644); err != nil {
 			die2("cannot write evidence: %v", err)
 		}
 	}
